@@ -144,7 +144,7 @@ def plan(tier, seed, jobs):
         for off in range(k):
             specs.append({"kind": "single", "stride": k, "offset": off, "budget_s": 1500})
         for j in range(jobs * 3):
-            specs.append({"kind": "history", "n": 3000, "seed": seed, "j": j, "budget_s": 600})
+            specs.append({"kind": "history", "n": 3000, "seed": seed, "j": j, "budget_s": 200})
     return specs
 
 
